@@ -43,7 +43,7 @@ func init() {
 				{Name: "close-parked", Variant: "race", Cases: cw, Run: closeParked, CaseTimeout: 60 * time.Second, Required: []string{"close_parked_cases", "activity_parked:control-heartbeat-unanswered", "activity_parked:control-reconnect-waiting-for-system.local", "activity_parked:refill-failed-waiting-for-conviction"}},
 				{Name: "close-vs-reconnect", Variant: "race", Cases: n * 2, Run: c17closeReconnect, CaseTimeout: 40 * time.Second, Required: []string{"closes_checked"}},
 				{Name: "scenarios", Variant: "race", Cases: n, Run: c17case, CaseTimeout: 60 * time.Second,
-					Required: []string{"fill_storms", "api_mixes", "close_races", "uneven_fills", "closes_checked", "pool_samples", "control_loss_before_close"}},
+					Required: []string{"fill_storms", "api_mixes", "close_races", "uneven_fills", "closes_checked", "pool_samples", "control_loss_before_close", "replacement_attempts_refused_once"}},
 				{Name: "debouncer-stress", Variant: "race", Cases: cw, Run: c17debouncerStress, CaseTimeout: 60 * time.Second, Required: []string{"debouncer_refresh_requests", "debouncer_refreshes_run", "debouncer_single_requester_rounds"}},
 				{Name: "node-returns", Variant: "race", Cases: cw, Run: c17nodeReturns, CaseTimeout: 120 * time.Second, Required: []string{"node_return_rounds", "coinciding_up_triggers", "pool_removals_checked"}},
 				{Name: "refresh-storm", Variant: "race", Cases: cw, Run: c17refreshStorm, CaseTimeout: 60 * time.Second, Required: []string{"refresh_storms", "ring_refreshes_requested"}},
@@ -460,6 +460,12 @@ func c17case(c *runner.Ctx, i int) {
 				}
 			}
 			if victim != nil {
+				if size >= 2 && r.Intn(2) == 0 {
+					// the node also refuses the next connection attempt or two (it is busy for a moment): the replacement
+					// fails once, the pool is short but not empty, and it is use that has to bring it back to size
+					atomic.StoreInt32(&n.RefuseNext, int32(1+r.Intn(2)))
+					c.Add("replacement_attempts_refused_once", 1)
+				}
 				victim.Close()
 				// bounded progress, judged on what the driver does, not on the wall clock alone: it must either
 				// restore the pool or still be dialling; only "pool under-full and no dial for 2 s while queries
@@ -824,10 +830,10 @@ func c17debouncerStress(c *runner.Ctx, i int) {
 	c.Add("debouncer_refreshes_run", atomic.LoadInt64(&runs))
 	c.Eval(runner.H("c17debouncer", i, interval, work), true)
 	if n := atomic.LoadInt64(&afterStop); n > 0 {
-		c.Violation("C17:refresh-after-stop", fmt.Sprintf("%d ring refreshes ran after the debouncer's stop had returned", n), nil)
+		c.Violation(c.Prop+":refresh-after-stop", fmt.Sprintf("%d ring refreshes ran after the debouncer's stop had returned", n), nil)
 	}
 	if atomic.LoadInt64(&runs) == 0 {
-		c.Violation("C17:refresh-never-ran", fmt.Sprintf("%d immediate refresh requests were answered but the refresh function never ran", atomic.LoadInt64(&asked)), nil)
+		c.Violation(c.Prop+":refresh-never-ran", fmt.Sprintf("%d immediate refresh requests were answered but the refresh function never ran", atomic.LoadInt64(&asked)), nil)
 	}
 }
 
